@@ -105,17 +105,40 @@ def check(fx, rep, tier):
             ci, ii = F.local_of(cad[0][0]), F.local_of(cad[0][1])
             if ci in plids and ii in plids:
                 helpers[b["def"]] = (plids.index(ci), plids.index(ii))
+    # whole-poll helpers: a function whose body is `if a % b == 0 && <watchdog>.should_stop() { return Err(stopped) } Ok(())` with
+    # a, b parameters: calling it (and propagating its result) is a poll with the cadence given by the arguments
+    full_helpers = {}
+    for b in fx.fn_bodies():
+        hir = b.get("hir")
+        if not hir or b["def"] in helpers or "Result" not in (fx.fns.get(b["def"], {}).get("output") or ""):
+            continue
+        polls_in = [(c, cps) for c, cps in F.calls(hir["value"]) if F.callee_def(c) == SHOULD_STOP]
+        if len(polls_in) != 1 or enclosing_loop(polls_in[0][1]) is not None:
+            continue
+        pc, pps = polls_in[0]
+        hiff = next((a for a, k_ in reversed(pps) if isinstance(a, dict) and a.get("k") == "If" and k_ == "cond"), None)
+        if hiff is None:
+            continue
+        hconj = split_and(hiff["cond"])
+        hcad = [rem_eq_zero(c) for c in hconj if rem_eq_zero(c)]
+        plids = [p.get("local") for p in hir["params"]]
+        if len(hcad) == 1 and F.local_of(hcad[0][0]) in plids and F.local_of(hcad[0][1]) in plids:
+            # nothing else of substance in the helper: the `if` and the final Ok(())
+            top = hir["value"]
+            stmts = top["block"]["stmts"] if top.get("k") == "Block" else []
+            if len([st for st in stmts if st.get("s") != "Let"]) + (1 if top.get("k") == "Block" and top["block"].get("expr") is not None else 0) <= 2:
+                full_helpers[b["def"]] = {"ci": plids.index(F.local_of(hcad[0][0])), "ii": plids.index(F.local_of(hcad[0][1])), "iff": hiff, "poll": pc, "fn": b}
     sites = []
     for b in fx.fn_bodies():
         hir = b.get("hir")
-        if not hir or b["def"] in helpers:
+        if not hir or b["def"] in helpers or b["def"] in full_helpers:
             continue
         for n, ps in F.calls(hir["value"]):
             if F.callee_def(n) == SHOULD_STOP:
                 sites.append((b, n, ps))
             else:
                 for t in cg.resolve_local(n):
-                    if t in helpers:
+                    if t in helpers or t in full_helpers:
                         sites.append((b, n, ps))
     rep.floor("R13.1", len(sites), 10, "polls (calls of Watchdog::should_stop)")
     per_fn = {}
@@ -135,7 +158,17 @@ def check(fx, rep, tier):
                 loop_ps = mps
         # the If whose condition contains the call
         iff = None
+        full = next((full_helpers[t] for t in cg.resolve_local(n) if t in full_helpers), None) if F.callee_def(n) != SHOULD_STOP else None
+        pn = n
+        if full is not None:
+            # the poll lives in the helper; here its result has to be handed on
+            handed_on = any(isinstance(a, dict) and a.get("k") == "Match" and "TryDesugar" in (a.get("source") or "") for a, _ in ps[-3:]) or T.explicit_err_exit(ps)
+            rep.oblige(handed_on, "R13.2", f"stop-propagated:{key_base}", w, f"`{b['def']}` does not hand on the result of its poll helper: a stop is ignored")
+            iff = {"k": "If", "cond": full["iff"]["cond"], "then": full["iff"]["then"], "span": n["span"]}
+            pn = full["poll"]
         for anc, key in reversed(ps):
+            if full is not None:
+                break
             if anc.get("k") == "If" and key == "cond":
                 iff = anc
                 break
@@ -164,20 +197,22 @@ def check(fx, rep, tier):
             if r:
                 cadence = r
         via_helper = next((helpers[t] for t in cg.resolve_local(n) if t in helpers), None)
+        if full is not None:
+            via_helper = (full["ci"], full["ii"])
         if via_helper is not None:
             allargs = F.call_args(n)
             if max(via_helper) < len(allargs):
                 cadence = (allargs[via_helper[0]], allargs[via_helper[1]])
-        call_is_conjunct = any(F.strip(c) is n or any(x is n for x, _ in F.walk(c)) and F.strip(c).get("k") == "MethodCall" for c in conj)
-        others = [c for c in conj if rem_eq_zero(c) is None and not any(x is n for x, _ in F.walk(c))]
+        call_is_conjunct = any(F.strip(c) is pn or any(x is pn for x, _ in F.walk(c)) and F.strip(c).get("k") == "MethodCall" for c in conj)
+        others = [c for c in conj if rem_eq_zero(c) is None and not any(x is pn for x, _ in F.walk(c))]
         # the cadence test comes first: `&&` short-circuits, so with the operands the other way round the watchdog is asked
         # on every iteration (and a stop it signals is ignored unless the counter happens to be aligned)
         order_ok = True
-        if via_helper is None and cadence is not None:
+        if (via_helper is None or full is not None) and cadence is not None:
             idx_c = next((i for i, c in enumerate(conj) if rem_eq_zero(c)), None)
-            idx_p = next((i for i, c in enumerate(conj) if any(x is n for x, _ in F.walk(c))), None)
+            idx_p = next((i for i, c in enumerate(conj) if any(x is pn for x, _ in F.walk(c))), None)
             own = split_and(iff["cond"])
-            if idx_c is not None and idx_p is not None and any(rem_eq_zero(c) for c in own) and any(any(x is n for x, _ in F.walk(c)) for c in own):
+            if idx_c is not None and idx_p is not None and any(rem_eq_zero(c) for c in own) and any(any(x is pn for x, _ in F.walk(c)) for c in own):
                 order_ok = idx_c < idx_p
         ok_shape = cadence is not None and call_is_conjunct and not others and order_ok
         rep.oblige(
@@ -208,7 +243,7 @@ def check(fx, rep, tier):
                 continue
             if not seen_loop or anc is outer_if or anc is iff:
                 continue
-            if anc.get("k") in ("If", "Match") and not anc.get("exp") and "Desugar" not in str(anc.get("source", "")) and any(x is outer_if for x, _ in F.walk(anc)):
+            if anc.get("k") in ("If", "Match") and not anc.get("exp") and "Desugar" not in str(anc.get("source", "")) and any((x is outer_if) or (full is not None and x is n) for x, _ in F.walk(anc)):
                 if anc.get("k") == "If" and key == "cond":
                     continue
                 conditional = True
@@ -510,9 +545,9 @@ def check(fx, rep, tier):
                 for anc, key in reversed(mps[-3:]):
                     if anc.get("k") in ("Call", "MethodCall"):
                         for t in cg.resolve_local(anc):
-                            if t in helpers:
+                            if t in helpers or t in full_helpers:
                                 allargs = F.call_args(anc)
-                                idx = helpers[t][1]
+                                idx = helpers[t][1] if t in helpers else full_helpers[t]["ii"]
                                 return idx < len(allargs) and any(x is m for x, _ in F.walk(allargs[idx]))
                 return False
 
